@@ -905,27 +905,28 @@ pub fn check_c26(case: &Case, p: &Parsed, trace: bool) -> C26Outcome {
                 );
             }
         }
-        // The property says the response *equals* the reference's: the multiset of error paths
-        // must be the one of model M, i.e. with apollo-compiler's cancellation (stop a selection
-        // set / a list at the first propagating failure). Checks 4 and 5 above say *why* a
-        // difference is wrong when it is outside what the spec allows; this one pins the rest.
+        // 8. Between the two references: every error of M (apollo-compiler's cancellation: stop a
+        //    selection set / a list at the first propagating failure) must have been reported —
+        //    nothing that execution order makes unavoidable may be swallowed — and (check 4) nothing
+        //    beyond F (no cancellation at all) may appear. The spec allows either policy ("may be
+        //    cancelled to avoid unnecessary work"), so an executor that cancels less than today's
+        //    is not flagged; world 0 (no faults) has M = F anyway.
         {
-            let mut a = real_errs.clone();
-            let mut b = m.errors.clone();
-            a.sort();
-            b.sort();
-            if a != b {
-                let extra: Vec<&String> = a.iter().filter(|e| !b.contains(e)).collect();
-                let missing: Vec<&String> = b.iter().filter(|e| !a.contains(e)).collect();
-                return viol(
-                    "errors_differ_from_reference",
-                    format!(
-                        "{} | executor reported {} errors, reference {}: not in reference {extra:?}, not reported {missing:?}",
-                        if a.len() > b.len() { "more errors than the reference" } else if a.len() < b.len() { "fewer errors than the reference" } else { "different error paths" },
-                        a.len(),
-                        b.len()
-                    ),
-                );
+            let mut have: BTreeMap<&str, i64> = BTreeMap::new();
+            for e in &real_errs {
+                *have.entry(e.as_str()).or_default() += 1;
+            }
+            for e in &m.errors {
+                let c = have.entry(e.as_str()).or_default();
+                *c -= 1;
+                if *c < 0 {
+                    return viol(
+                        "errors_differ_from_reference",
+                        format!(
+                            "fewer errors than the reference | error at `{e}` is produced by the reference executor even with every permitted cancellation, but was not reported (reported: {real_errs:?})"
+                        ),
+                    );
+                }
             }
         }
         // 9. locations ("with path and locations filled in"): every error is located at the name
